@@ -426,7 +426,7 @@ def check_recursion(shape, use, n, debug, via_expression):
     src = RECURSION_SHAPES[shape].format(use=RECURSION_USES[use].format(n=n))
     d = {'kind': 'recursion', 'shape': shape, 'use': use, 'n': n, 'debug': debug, 'via_expression': via_expression, 'source': src}
     log = []
-    opts = {'globals': {}, 'logFn': log.append, 'maxStatements': 200000}
+    opts = {'globals': {}, 'logFn': log.append, 'maxStatements': 2e5 if debug else 200000}
     if debug:
         opts['debug'] = True
     model = impl.parse_valid(src, d)
@@ -455,7 +455,7 @@ def check_program(src, g):
 
     def run():
         try:
-            return impl.bs.execute_script(model, {'globals': g2, 'logFn': lambda m: None, 'maxStatements': 5000})
+            return impl.bs.execute_script(model, {'globals': g2, 'logFn': lambda m: None, 'maxStatements': 5000.0 if len(src) % 2 else 5000})       # (hosts write budgets as 5e3 too)
         except MemoryError:
             # a generated program that doubles a string / array in nested loops until the shard's address-space net is hit: exhausting the
             # host is outside the property (the core discards the case)
